@@ -42,30 +42,43 @@ def deliver {κ : Type} (kind : FrameKind) (o : Interp.ChildResult) (parent : Fr
   | .halt r out s => pure (.ended parent rest r out s w)
   | .fault f => throw (.panic s!"insert outcome: {f.name}")
 
+/-- `shared_memory.free_context()` -/
+def freeCtx (m : Memory.SharedMemory) : R Memory.SharedMemory :=
+  match Memory.freeContext m with
+  | .ok m' => pure m'
+  | _ => throw (.panic "free_context")
+
+/-- `call_return` / `create_return`, by the kind of the frame that returned -/
+def frameReturn {κ : Type} (C : CpOps κ) (cfg : Cfg) (top : Frame κ) (w : World) (res : Interp.ChildResult) :
+    R (Interp.ChildResult × World) :=
+  match top.kind with
+  | .call _ _ => callReturn C w top.checkpoint res
+  | .create a => createReturn C cfg w top.checkpoint a res
+
 /-- the frame on top of the stack ended with `(r, out)` in state `s` -/
 def frameEnd {κ : Type} (C : CpOps κ) (cfg : Cfg) (top : Frame κ) (rest : List (Frame κ)) (r : Interp.IResult)
     (out : List Nat) (s : Interp.IState) (w : World) : R (Next κ) := do
   -- free memory context
-  let mem ← (match Memory.freeContext s.mem with
-    | .ok m => pure m
-    | _ => throw (.panic "free_context") : R Memory.SharedMemory)
-  let res := resultOf r out s
-  let (res, w) ← (match top.kind with
-    | .call _ _ => callReturn C w top.checkpoint res
-    | .create a => createReturn C cfg w top.checkpoint a res)
+  let mem ← freeCtx s.mem
+  let (res, w) ← frameReturn C cfg top w (resultOf r out s)
   match rest with
   | [] => pure (.done res w)
   | parent :: rest' => deliver top.kind res parent rest' mem w
+
+/-- `make_call_frame` / `make_create_frame`, by the action -/
+def makeFrame {κ : Type} (C : CpOps κ) (cfg : Cfg) (w : World) (a : Interp.Action) (mem : Memory.SharedMemory) :
+    R (FrameOrResult κ × World) :=
+  match a with
+  | .call i => makeCallFrame C cfg w i mem
+  | .create i => makeCreateFrame C cfg w i mem
+  -- EOF frames are not modelled here (legacy code never emits this action: EOFCREATE stops a legacy frame)
+  | .eofCreate _ => throw (.panic "unsupported: Action.eofCreate (EOF frames are not modelled)")
 
 /-- the running frame hands out an action -/
 def frameAction {κ : Type} (C : CpOps κ) (cfg : Cfg) (top : Frame κ) (rest : List (Frame κ)) (a : Interp.Action)
     (s : Interp.IState) (w : World) : R (Next κ) := do
   let top := { top with interp := s }
-  let (fr, w) ← (match a with
-    | .call i => makeCallFrame C cfg w i s.mem
-    | .create i => makeCreateFrame C cfg w i s.mem
-    -- EOF frames are not modelled here (legacy code never emits this action: EOFCREATE stops a legacy frame)
-    | .eofCreate _ => throw (.panic "unsupported: Action.eofCreate (EOF frames are not modelled)"))
+  let (fr, w) ← makeFrame C cfg w a s.mem
   match fr with
   | .frame f => pure (.run (f :: top :: rest) w)
   | .result o => deliver (kindOfAction a) o top rest s.mem w
